@@ -951,6 +951,79 @@ func randomOps(r *rand.Rand, u [][]byte) []op {
 	return ops
 }
 
+// deepHistory builds a universe around one long spine key and a history that fills it, proves deep keys, collapses,
+// reloads and edits it.
+func deepHistory(r *rand.Rand) ([][]byte, []op) {
+	l := 36 + r.Intn(mpt.MaxKeyLength-36+1)
+	spine := make([]byte, l)
+	r.Read(spine)
+	set := map[string]bool{string(spine): true}
+	for i := 0; i < l; i++ {
+		for _, mask := range []byte{0x10, 0x01} {
+			if r.Intn(12) == 0 {
+				continue
+			}
+			k := bytes.Clone(spine[:i+1])
+			k[i] ^= mask
+			if r.Intn(3) == 0 && len(k) < mpt.MaxKeyLength {
+				k = append(k, byte(r.Intn(256)))
+			}
+			set[string(k)] = true
+		}
+	}
+	var u [][]byte
+	for _, ks := range sortedKeys(toMap(set)) {
+		u = append(u, []byte(ks))
+	}
+	vals := [][]byte{[]byte("a"), []byte("b"), {}, {0x00}, []byte("value-3")}
+	val := func() []byte { return vals[r.Intn(len(vals))] }
+	key := func() []byte { return u[r.Intn(len(u))] }
+	var ops []op
+	perm := r.Perm(len(u))
+	for lo := 0; lo < len(perm); {
+		hi := min(len(perm), lo+1+r.Intn(len(perm)))
+		o := op{kind: "batch"}
+		for _, j := range perm[lo:hi] {
+			o.b = append(o.b, kv{k: u[j], v: val()})
+		}
+		ops = append(ops, o)
+		lo = hi
+	}
+	ops = append(ops, op{kind: "flush"}, op{kind: "tamper", k: spine, other: key()})
+	for n := 0; n < 10; n++ {
+		switch r.Intn(8) {
+		case 0:
+			ops = append(ops, op{kind: "flush"}, op{kind: "collapse", n: r.Intn(40)})
+		case 1:
+			ops = append(ops, op{kind: "flush"}, op{kind: "reload"})
+		case 2:
+			ops = append(ops, op{kind: "del", k: key()})
+		case 3:
+			ops = append(ops, op{kind: "put", k: key(), v: val()})
+		case 4:
+			o := op{kind: "batch"}
+			seen := map[string]bool{}
+			for j := 0; j < 1+r.Intn(6); j++ {
+				k := key()
+				if !seen[string(k)] {
+					seen[string(k)] = true
+					o.b = append(o.b, kv{k: k, v: val(), del: r.Intn(3) == 0})
+				}
+			}
+			ops = append(ops, o)
+		case 5:
+			ops = append(ops, op{kind: "find", prefix: spine[:r.Intn(l)], max: 3})
+		default:
+			k := key()
+			if r.Intn(2) == 0 {
+				k = spine
+			}
+			ops = append(ops, op{kind: "tamper", k: k, other: key()})
+		}
+	}
+	return u, ops
+}
+
 // probeFindLive documents a corner that is left out of the verdict (DESIGN 2.2, drift): Trie.Find is judged on
 // store-rooted tries over a flushed store, which is how stateroot.Module uses it. Called on a live trie with
 // unflushed changes it answers correctly, but the Billet traversal it is built on replaces the visited in-memory
@@ -1004,6 +1077,16 @@ func TestDriver(t *testing.T) {
 		runHistory(res, tr, fmt.Sprintf("rnd-%d-%s", i, modeName(m)), m, u, ops, stream)
 	}
 	res.Inc("random_histories", nr)
+	// deep tries: one long spine with a key leaving it at (almost) every half-byte, so that paths - and proofs - have
+	// one node per nibble (the longest proof the key-length limit allows has 2*MaxKeyLength+1 nodes)
+	nd := vh.EnvInt("VERIF_DEEP", 4)
+	for i := 0; i < nd; i++ {
+		u, ops := deepHistory(r)
+		m := modes[i%3]
+		stream++
+		runHistory(res, tr, fmt.Sprintf("deep-%d-%s", i, modeName(m)), m, u, ops, stream)
+	}
+	res.Inc("deep_histories", nd)
 	probeFindLive(res)
 	tr.Close()
 	res.Inc("trace_events", tr.N)
